@@ -36,6 +36,33 @@ Proof. reflexivity. Qed.
 Example C17_example_all_intr : res (read_n 5 2 [Interrupted; Interrupted; Deliver 3] [1;2;3]) = RErr EIntr.
 Proof. reflexivity. Qed.
 
+(* ---- the arena side (geometry-faithful model, iovec/Geo.v) ----
+   ByteArena::read_n allocates `count` bytes from the allocation cache (opening a new chunk if they do not fit), lets the
+   retry loop above fill a prefix `got` of them, and gives the remainder back.  For every arena state and every delivered
+   prefix: the returned slice reads exactly `got`; every earlier allocation (any in-bounds slice of any chunk) reads as before
+   and stays in bounds; the cache ends exactly after the delivered bytes, so remaining() is charged for them only; and the
+   new slice lies at or above the end of every older slice of its chunk (distinct allocations never overlap). *)
+From WP Require iovec.Geo iovec.GeoMem iovec.GeoProofs.
+Theorem C17_arena_frame h k got count h' k' s a :
+  GeoProofs.cache_ok h k -> GeoProofs.heap_ok h -> 0 < count -> Geo.nlen got <= count ->
+  Geo.arena_read_n h k got count = Some (h', k', s, a) ->
+  exists k1, k' = Some k1 /\ GeoProofs.cache_ok h' (Some k1) /\ GeoProofs.heap_ok h' /\ (length h <= length h')%nat /\
+    (forall s0, GeoMem.sl_ok h s0 -> Geo.sl_bytes h' s0 = Geo.sl_bytes h s0 /\ GeoMem.sl_ok h' s0) /\
+    Geo.sl_bytes h' s = got /\ s = Geo.SArena (Geo.kchunk k1) (Geo.kbump k1 - Geo.nlen got) (Geo.nlen got) /\
+    Geo.nlen got <= Geo.kbump k1 /\ (got <> [] -> GeoMem.sl_ok h' s) /\
+    (forall s0, GeoMem.sl_ok h s0 -> GeoProofs.sl_chunk s0 = Some (Geo.kchunk k1) -> GeoProofs.sl_end s0 <= Geo.kbump k1 - Geo.nlen got) /\
+    a = {| Geo.acount := 1; Geo.achunk := Some (Geo.kchunk k1) |} /\
+    ((k = Some {| Geo.kchunk := Geo.kchunk k1; Geo.kbump := Geo.kbump k1 - Geo.nlen got |} /\
+      h' = Geo.heap_poke h (Geo.kchunk k1) (Geo.kbump k1 - Geo.nlen got) got) \/
+     (Geo.kchunk k1 = length h /\ Geo.kbump k1 = Geo.nlen got /\ count <= Geo.kcap h' k1)).
+Proof. exact (GeoProofs.arena_read_n_spec h k got count h' k' s a). Qed.
+Example C17_arena_example :
+  Geo.arena_read_n [{| Geo.ccap := 8; Geo.cdata := [1;2;3] |}] (Some {| Geo.kchunk := 0; Geo.kbump := 3 |}) [7;7] 5 =
+  Some ([{| Geo.ccap := 8; Geo.cdata := [1;2;3;7;7] |}], Some {| Geo.kchunk := 0; Geo.kbump := 5 |}, Geo.SArena 0 3 2,
+        {| Geo.acount := 1; Geo.achunk := Some 0%nat |}).
+Proof. vm_compute. reflexivity. Qed.
+
 Print Assumptions C17_read_n.
+Print Assumptions C17_arena_frame.
 Print Assumptions C17_succeeds_iff.
 Print Assumptions C17_count_zero.
